@@ -143,7 +143,14 @@ func cloneMsg(m *specqbft.SignedMessage) *specqbft.SignedMessage {
 
 func replay(b vh.Behaviour, res *vh.Result) {
 	t := newTrio(b)
-	violate := func(step int, sig, desc string) { res.Violate(sig, desc, b.ID, step) }
+	violate := func(step int, sig, desc string) {
+		if sig == "C06:compaction-changes-output" && t.b != nil && t.b.State.Decided {
+			// Compact discards every non-commit message of a DECIDED instance (documented in compact.go): a prepare
+			// quorum completed afterwards no longer triggers the (redundant) commit broadcast
+			sig = "C06:compaction-changes-output-after-decision"
+		}
+		res.Violate(sig, desc, b.ID, step)
+	}
 	nontrivial := false
 	for i, st := range b.Steps {
 		a := st.Act
@@ -171,7 +178,6 @@ func replay(b vh.Behaviour, res *vh.Result) {
 			}
 			ea := t.a.UponRoundTimeout(t.log)
 			eb := t.b.UponRoundTimeout(t.log)
-			instance.Compact(t.b.State, nil)
 			er := t.r.UponRoundTimeout()
 			if (ea == nil) != (er == nil) || (eb == nil) != (er == nil) {
 				violate(i, "C06:accept-mismatch", fmt.Sprintf("timeout: node err=%v, compacting node err=%v, reference err=%v", ea, eb, er))
@@ -222,7 +228,12 @@ func replay(b vh.Behaviour, res *vh.Result) {
 			nontrivial = true
 			da, va, ca, ea := t.a.ProcessMsg(t.log, cloneMsg(m))
 			db, vb, cb, eb := t.b.ProcessMsg(t.log, cloneMsg(m))
-			instance.Compact(t.b.State, nil)
+			// the node compacts between messages exactly where BaseRunner.compactInstanceIfNeeded does:
+			// after a decided (quorum-signed commit) message and after a round-change message
+			if m.Message.MsgType == specqbft.RoundChangeMsgType ||
+				(m.Message.MsgType == specqbft.CommitMsgType && len(m.Signers) >= t.wa.Quorum()) {
+				instance.Compact(t.b.State, m)
+			}
 			dr, vr, cr, er := t.r.ProcessMsg(cloneMsg(m))
 			if (ea == nil) != (er == nil) {
 				violate(i, "C06:accept-mismatch", fmt.Sprintf("%s %v: node err=%v, reference err=%v", name, a, ea, er))
